@@ -101,6 +101,10 @@ pub const FAR2_LONG_LENGTH_THRESHOLD: usize = 64;
 /// Far3Long length threshold for variable encoding  
 pub const FAR3_LONG_LENGTH_THRESHOLD: usize = 35;
 
+/// Maximum Far3Long length: the variable-length field stores `length - 34`, and its widest
+/// form carries `value - 32768` in 30 bits
+pub const MAX_FAR3_LONG_LENGTH: usize = MIN_FAR2_LONG_LENGTH + 32768 + (1 << 30) - 1;
+
 /// PA-Zip compression type enumeration
 ///
 /// Represents the 8 different compression strategies used by the PA-Zip algorithm.
@@ -198,7 +202,9 @@ impl CompressionType {
                 distance <= MAX_FAR2_LONG_DISTANCE && length >= MIN_FAR2_LONG_LENGTH
             }
             CompressionType::Far3Long => {
-                distance <= MAX_FAR3_LONG_DISTANCE && length >= MIN_FAR2_LONG_LENGTH
+                distance <= MAX_FAR3_LONG_DISTANCE
+                    && length >= MIN_FAR2_LONG_LENGTH
+                    && length <= MAX_FAR3_LONG_LENGTH
             }
         }
     }
@@ -543,7 +549,7 @@ impl Match {
                         distance
                     )));
                 }
-                if *length < MIN_FAR2_LONG_LENGTH as u32 {
+                if *length < MIN_FAR2_LONG_LENGTH as u32 || *length as usize > MAX_FAR3_LONG_LENGTH {
                     return Err(ZiporaError::invalid_data(format!(
                         "Invalid Far3Long length: {}",
                         length
